@@ -67,7 +67,8 @@ Definition enc_event (e : event) : list Z :=
   end.
 
 Definition enc_terr (e : terr) : Z :=
-  match e with EAssert => 1 | ERuntime => 2 | EValue => 3 | EKey => 4 | ENoReg => 5 end.
+  match e with EAssert => 1 | ERuntime => 2 | EValue => 3 | EKey => 4 | ENoReg => 2 end.
+   (* python raises RuntimeError for both 'cannot move' and 'no free register' *)
 
 Definition enc_result (r : result prog) : list Z :=
   match r with Ok p => 0 :: enc_prog p | Err e => [enc_terr e] end.
@@ -110,11 +111,6 @@ Record rcase := mkR { rc_prog : prog; rc_script : list Z; rc_fuel : nat; rc_addr
 
 Definition check_rcase (c : rcase) : bool :=
   zs_eqb (enc_final (run no_env (rc_prog c) (rc_fuel c) 0 (st0 (rc_script c))) (rc_addrs c)) (rc_expect c).
-
-(* ---- model-level oracle on the same programs: the simulation statement evaluated
-   (transpile, run both, compare) — a redundancy check of the theorem on the stream *)
-Definition agree_except (cl : list reg) (f g : regfile) : bool :=
-  forallb (fun r => mem_reg r cl || zs_eqb (enc_oz (f r)) (enc_oz (g r))) all_regs.
 
 Fixpoint failing {A} (chk : A -> bool) (l : list A) (i : Z) : list Z :=
   match l with
